@@ -693,28 +693,74 @@ Proof.
   apply (enabled_index_same fs j j M). reflexivity.
 Qed.
 
+(* ------------------------------------------------------------------ taking `expand` apart *)
+
+Definition render_source (k : kind) (fs : list field) (source : option nat) : res source_code :=
+  match k with
+  | Struct => render_source_as_struct fs source
+  | Variant => render_source_as_enum_variant_match_arm fs source
+  end.
+Definition render_provide (k : kind) (fs : list field) (source backtrace : option nat)
+  : res provide_code :=
+  match k with
+  | Struct => render_provide_as_struct fs source backtrace
+  | Variant => render_provide_as_enum_variant_match_arm fs source backtrace
+  end.
+
+Lemma expand_inv : forall k sh fs x,
+  expand k sh fs = Ok x ->
+  exists p code prov,
+    parse_fields sh fs = Ok p /\
+    render_source k fs (p_source p) = Ok code /\
+    render_provide k fs (p_source p) (p_backtrace p) = Ok prov /\
+    x = mkExpansion (p_source p) code (p_bound p) (p_backtrace p) prov.
+Proof.
+  intros k sh fs x H. unfold expand in H. unfold render_source, render_provide.
+  destruct (parse_fields sh fs) as [p| |] eqn:P; cbn [res_bind] in H; try discriminate.
+  destruct k.
+  - destruct (render_source_as_struct fs (p_source p)) as [code| |] eqn:RS; cbn [res_bind] in H;
+      try discriminate.
+    destruct (render_provide_as_struct fs (p_source p) (p_backtrace p)) as [prov| |] eqn:RP;
+      cbn [res_bind] in H; try discriminate.
+    inversion H; subst. exists p, code, prov. repeat split; try reflexivity; assumption.
+  - destruct (render_source_as_enum_variant_match_arm fs (p_source p)) as [code| |] eqn:RS;
+      cbn [res_bind] in H; try discriminate.
+    destruct (render_provide_as_enum_variant_match_arm fs (p_source p) (p_backtrace p)) as [prov| |] eqn:RP;
+      cbn [res_bind] in H; try discriminate.
+    inversion H; subst. exists p, code, prov. repeat split; try reflexivity; assumption.
+Qed.
+
+(* the source rendering, in the all-fields space *)
+Lemma render_source_returns : forall k fs s code,
+  render_source k fs s = Ok code ->
+  source_returns code = option_map (to_all fs) s
+  /\ (forall s0, s = Some s0 -> nth_error (enabled_fields_indexes fs) s0 = Some (to_all fs s0)).
+Proof.
+  intros k fs s code H. destruct s as [s|].
+  2:{ destruct k; cbn in H; inversion H; subst; (split; [reflexivity|discriminate]). }
+  assert (G : exists j, nth_error (enabled_fields_indexes fs) s = Some j /\ source_returns code = Some j).
+  { destruct k; cbn in H.
+    - unfold members in H. destruct (nth_error (enabled_fields_indexes fs) s) as [j|] eqn:M; [|discriminate].
+      inversion H; subst. exists j. split; reflexivity.
+    - destruct (nth_error (enabled_fields_indexes fs) s) as [j|] eqn:M; [|discriminate].
+      inversion H; subst. exists j. split; [reflexivity|]. cbn.
+      apply binding_matcher. apply (enabled_index_lt fs s j M). }
+  destruct G as [j [M R]]. split.
+  - cbn. unfold to_all. rewrite (nth_error_nth _ _ 0 M). exact R.
+  - intros s0 E. inversion E; subst. unfold to_all. rewrite (nth_error_nth _ _ 0 M). exact M.
+Qed.
+
 (* ------------------------------------------------------------------ selection: the code as it is *)
 
 Lemma selection : forall k sh fs x,
   expand k sh fs = Ok x -> Sel (returned_field x) = documented_source sh fs.
 Proof.
-  intros k sh fs x H. unfold expand in H.
-  destruct (parse_fields sh fs) as [p| |] eqn:P; cbn [res_bind] in H; try discriminate.
+  intros k sh fs x H. destruct (expand_inv _ _ _ _ H) as [p [code [prov [P [RS [RP E]]]]]]. subst x.
   destruct (parse_fields_select _ _ _ P) as [S B].
   pose proof (select_sim sh (enabled_fields fs)) as AG. rewrite S in AG. cbn in AG.
   rewrite documented_via_enabled, AG. cbn [doc_map].
-  destruct (p_source p) as [s|].
-  - destruct B as [j [f [Nj [Nf _]]]].
-    assert (R : returned_field x = Some j).
-    { destruct k.
-      - unfold render_source_as_struct, members in H. rewrite Nj in H. cbn [res_bind] in H.
-        inversion H; subst. reflexivity.
-      - unfold render_source_as_enum_variant_match_arm in H. rewrite Nj in H.
-        cbn [res_bind] in H. inversion H; subst. unfold returned_field. cbn.
-        apply binding_matcher. apply (enabled_index_lt fs s j Nj). }
-    rewrite R. cbn. rewrite (nth_error_nth _ _ 0 Nj). reflexivity.
-  - destruct k; cbn [render_source_as_struct render_source_as_enum_variant_match_arm res_bind] in H;
-      inversion H; subst; reflexivity.
+  destruct (render_source_returns _ _ _ _ RS) as [R _].
+  unfold returned_field. cbn [x_code]. rewrite R. reflexivity.
 Qed.
 
 (* ------------------------------------------------------------------ ambiguous layouts *)
@@ -790,14 +836,14 @@ Lemma none_when_opted_out : forall k sh fs x,
   (forall f, In f fs -> f_ignore f = true \/ f_source f = Some false) ->
   expand k sh fs = Ok x -> returned_field x = None.
 Proof.
-  intros k sh fs x All H. unfold expand in H.
-  destruct (parse_fields sh fs) as [p| |] eqn:P; cbn [res_bind] in H; try discriminate.
+  intros k sh fs x All H. destruct (expand_inv _ _ _ _ H) as [p [code [prov [P [RS [RP E]]]]]]. subst x.
   destruct (parse_fields_select _ _ _ P) as [S _].
   assert (N : p_source p = None).
   { eapply select_none_opted_out; [|exact S]. intros f Hf. unfold enabled_fields in Hf.
     apply filter_In in Hf. destruct Hf as [Hf Ig]. destruct (All f Hf) as [I|I]; [|exact I].
     rewrite I in Ig. discriminate. }
-  rewrite N in H. destruct k; cbn in H; inversion H; subst; reflexivity.
+  destruct (render_source_returns _ _ _ _ RS) as [R _]. unfold returned_field. cbn [x_code].
+  rewrite R, N. reflexivity.
 Qed.
 
 Lemma documented_none_when_opted_out : forall sh fs,
@@ -921,25 +967,14 @@ Lemma bound_on_selected : forall k sh fs x j f,
   expand k sh fs = Ok x -> returned_field x = Some j -> nth_error fs j = Some f ->
   x_bound x = if f_ty_generic f then Some j else None.
 Proof.
-  intros k sh fs x j f H R Nf. unfold expand in H.
-  destruct (parse_fields sh fs) as [p| |] eqn:P; cbn [res_bind] in H; try discriminate.
+  intros k sh fs x j f H R Nf. destruct (expand_inv _ _ _ _ H) as [p [code [prov [P [RS [RP E]]]]]]. subst x.
   destruct (parse_fields_select _ _ _ P) as [S B].
-  destruct (p_source p) as [s|] eqn:Ps.
-  2:{ destruct k; cbn in H; inversion H; subst; discriminate R. }
-  destruct B as [j' [f' [Nj [Nf' Hb]]]].
-  assert (Hj : j = j').
-  { destruct k.
-    - unfold render_source_as_struct, members in H. rewrite Nj in H. cbn [res_bind] in H.
-      inversion H; subst. unfold returned_field in R. cbn in R. congruence.
-    - unfold render_source_as_enum_variant_match_arm in H. rewrite Nj in H. cbn [res_bind] in H.
-      inversion H; subst. unfold returned_field in R. cbn in R.
-      rewrite binding_matcher in R by (apply (enabled_index_lt fs s j' Nj)). congruence. }
-  subst j'. assert (f' = f) by congruence. subst f'.
-  destruct k.
-  - unfold render_source_as_struct, members in H. rewrite Nj in H. cbn [res_bind] in H.
-    inversion H; subst. exact Hb.
-  - unfold render_source_as_enum_variant_match_arm in H. rewrite Nj in H. cbn [res_bind] in H.
-    inversion H; subst. exact Hb.
+  destruct (render_source_returns _ _ _ _ RS) as [RR RI].
+  unfold returned_field in R. cbn [x_code] in R. rewrite RR in R.
+  destruct (p_source p) as [s|] eqn:Ps; [|discriminate].
+  destruct B as [j' [f' [Nj [Nf' Hb]]]]. cbn in R. inversion R; subst j.
+  pose proof (RI s eq_refl) as M. rewrite Nj in M. inversion M as [M']. rewrite <- M' in *.
+  assert (f' = f) by congruence. subst f'. cbn [x_bound]. exact Hb.
 Qed.
 
 (* ------------------------------------------------------------------ internal failures *)
@@ -961,22 +996,88 @@ Proof.
   - cbn. destruct k; cbn; discriminate.
 Qed.
 
+Lemma select_backtrace_in_range : forall len n sh l s b,
+  select_source_on len n sh l = Ok (s, Some b) -> b < length l.
+Proof.
+  intros len n sh l s b. unfold select_source_on, parse_fields_impl_on.
+  destruct (parse_field_impl (valid_source sh len) f_source (enumerate l)) as [src| |] eqn:S1;
+    cbn [res_bind]; try discriminate.
+  destruct (parse_field_impl (valid_backtrace sh) f_backtrace (enumerate l)) as [bt| |] eqn:B1;
+    cbn [res_bind]; try discriminate.
+  assert (Hbt : option_map fst bt = Some b -> b < length l).
+  { destruct bt as [[i f]|]; cbn; [|discriminate]. intros E. inversion E; subst.
+    apply parse_field_impl_in in B1. apply enumerate_in_lt in B1. exact B1. }
+  destruct sh; cbn [fst snd res_bind].
+  - intros H. inversion H. apply Hbt. assumption.
+  - destruct (option_map fst src) as [x|]; cbn [res_bind fst snd].
+    + intros H. inversion H. apply Hbt. assumption.
+    + destruct (infer_source_field n l None (option_map fst bt)) as [s'| |]; cbn [res_bind];
+        try discriminate.
+      intros H. inversion H. apply Hbt. assumption.
+Qed.
+
+Lemma index_at_ok : forall fs k, k < length (enabled_fields fs) ->
+  exists j, nth_error (enabled_fields_indexes fs) k = Some j.
+Proof.
+  intros fs k L. destruct (nth_error (enabled_fields_indexes fs) k) as [j|] eqn:M; [eauto|].
+  apply nth_error_None in M. unfold enabled_fields_indexes in M. rewrite enabled_indexes_length in M. lia.
+Qed.
+
+Lemma render_source_no_panic : forall k fs s,
+  (forall s0, s = Some s0 -> s0 < length (enabled_fields fs)) -> render_source k fs s <> Panic.
+Proof.
+  intros k fs [s|] R; [|destruct k; discriminate].
+  destruct (index_at_ok fs s (R s eq_refl)) as [j M].
+  destruct k; cbn; unfold members; rewrite M; discriminate.
+Qed.
+
+Lemma render_provide_no_panic : forall k fs s b,
+  (forall s0, s = Some s0 -> s0 < length (enabled_fields fs)) ->
+  (forall b0, b = Some b0 -> b0 < length (enabled_fields fs)) ->
+  render_provide k fs s b <> Panic.
+Proof.
+  intros k fs s [b|] Rs Rb; [|destruct k; discriminate].
+  destruct (index_at_ok fs b (Rb b eq_refl)) as [jb Mb].
+  destruct s as [s|].
+  - destruct (index_at_ok fs s (Rs s eq_refl)) as [js Ms].
+    destruct k; cbn; unfold member_at, field_index_at, members; rewrite ?Ms; cbn [res_bind];
+      destruct (Nat.eqb s b); rewrite ?Ms, ?Mb; cbn; discriminate.
+  - destruct k; cbn; unfold member_at, field_index_at, members; rewrite Mb; cbn; discriminate.
+Qed.
+
 Lemma no_panic : forall k sh fs, expand k sh fs <> Panic.
 Proof.
   intros k sh fs. pose proof (select_sim sh (enabled_fields fs)) as AG.
-  unfold expand, parse_fields, parse_fields_on.
-  destruct (select_source_on (length (enabled_fields fs)) (length (enabled_fields fs)) sh
-                             (enabled_fields fs)) as [[s b]| |] eqn:S;
-    cbn [res_bind fst snd]; try discriminate; [|destruct AG].
-  destruct s as [s|].
-  - pose proof (select_in_range _ _ _ _ _ _ S) as Le.
+  unfold expand. fold (render_source k fs). fold (render_provide k fs).
+  destruct (parse_fields sh fs) as [p| |] eqn:P; cbn [res_bind]; try discriminate.
+  - destruct (parse_fields_select _ _ _ P) as [S _].
+    assert (Rs : forall s0, p_source p = Some s0 -> s0 < length (enabled_fields fs)).
+    { intros s0 E. rewrite E in S. exact (select_in_range _ _ _ _ _ _ S). }
+    assert (Rb : forall b0, p_backtrace p = Some b0 -> b0 < length (enabled_fields fs)).
+    { intros b0 E. rewrite E in S. exact (select_backtrace_in_range _ _ _ _ _ _ S). }
+    change (match k with
+            | Struct => render_source_as_struct fs (p_source p)
+            | Variant => render_source_as_enum_variant_match_arm fs (p_source p)
+            end) with (render_source k fs (p_source p)).
+    destruct (render_source k fs (p_source p)) as [code| |] eqn:RS; cbn [res_bind]; try discriminate.
+    + change (match k with
+              | Struct => render_provide_as_struct fs (p_source p) (p_backtrace p)
+              | Variant => render_provide_as_enum_variant_match_arm fs (p_source p) (p_backtrace p)
+              end) with (render_provide k fs (p_source p) (p_backtrace p)).
+      destruct (render_provide k fs (p_source p) (p_backtrace p)) as [prov| |] eqn:RP; cbn [res_bind];
+        try discriminate.
+      exfalso. exact (render_provide_no_panic _ _ _ _ Rs Rb RP).
+    + exfalso. exact (render_source_no_panic _ _ _ Rs RS).
+  - (* parse_fields never panics *)
+    exfalso. unfold parse_fields, parse_fields_on in P.
+    destruct (select_source_on (length (enabled_fields fs)) (length (enabled_fields fs)) sh
+                               (enabled_fields fs)) as [[s b]| |] eqn:S;
+      cbn [res_bind fst snd] in P; try discriminate; [|destruct AG].
+    destruct s as [s|]; [|discriminate].
+    pose proof (select_in_range _ _ _ _ _ _ S) as Le.
     destruct (nth_error_combine_some _ _ (enabled_fields_indexes fs) (enabled_fields fs) s) as [j [f C]];
       [apply enabled_indexes_length|exact Le|].
-    rewrite C. cbn [res_bind p_source]. apply nth_error_combine in C. destruct C as [Cj _].
-    destruct k; cbn [res_bind].
-    + unfold render_source_as_struct, members. rewrite Cj. cbn. discriminate.
-    + unfold render_source_as_enum_variant_match_arm. rewrite Cj. cbn. discriminate.
-  - cbn. destruct k; cbn; discriminate.
+    rewrite C in P. discriminate.
 Qed.
 
 (* ------------------------------------------------------------------ `ignore` at the level of the code *)
@@ -1103,6 +1204,681 @@ Proof.
     apply covers_in in H. congruence.
 Qed.
 
+(* ------------------------------------------------------------------ the backtrace selection *)
+
+Lemma documented_backtrace_relabel : forall sh g c,
+  documented_backtrace_among sh (relabel g c) = doc_map g (documented_backtrace_among sh c).
+Proof.
+  intros sh g c. unfold documented_backtrace_among.
+  pose proof (filter_relabel field marked_backtrace g c) as F. cbn beta in F. rewrite F. clear F.
+  destruct (filter (fun p : nat * field => marked_backtrace (snd p)) c) as [|x [|y t]]; try reflexivity.
+  pose proof (filter_relabel field (backtrace_candidate sh) g c) as F. cbn beta in F. rewrite F. clear F.
+  destruct (filter (fun p : nat * field => backtrace_candidate sh (snd p)) c) as [|x [|y t]]; reflexivity.
+Qed.
+
+Lemma documented_backtrace_via_enabled : forall sh fs,
+  documented_backtrace sh fs
+  = doc_map (to_all fs) (documented_backtrace_among sh (enumerate (enabled_fields fs))).
+Proof.
+  intros sh fs. unfold documented_backtrace. rewrite considered_enabled.
+  apply documented_backtrace_relabel.
+Qed.
+
+Lemma ignore_inert_backtrace : forall sh fs k f,
+  f_ignore f = true -> k <= length fs ->
+  documented_backtrace sh (insert_at k f fs) = doc_map (shift k) (documented_backtrace sh fs).
+Proof.
+  intros sh fs k f Hf Hk. unfold documented_backtrace.
+  rewrite considered_insert by assumption. apply documented_backtrace_relabel.
+Qed.
+
+(* the code's backtrace parse IS the documented backtrace rule *)
+Lemma backtrace_parse_sim : forall sh it,
+  match parse_field_impl (valid_backtrace sh) f_backtrace it with
+  | Ok b => documented_backtrace_among sh it = Sel (option_map fst b)
+  | Err => documented_backtrace_among sh it = Ambiguous
+  | Panic => False
+  end.
+Proof.
+  intros sh it. unfold parse_field_impl, documented_backtrace_among, marked_backtrace.
+  destruct (filter (fun p : nat * field => is_some_true (f_backtrace (snd p))) it) as [|x [|y t]];
+    cbn [assert_iter_contains_zero_or_one_item res_bind]; try reflexivity.
+  rewrite (filter_ext_in' _ (fun p : nat * field => match f_backtrace (snd p) with
+                                                 | None => valid_backtrace sh (snd p)
+                                                 | _ => false end)
+                          (fun p : nat * field => backtrace_candidate sh (snd p))).
+  2:{ intros p _. unfold backtrace_candidate, valid_backtrace, is_none.
+      destruct (f_backtrace (snd p)), sh; reflexivity. }
+  destruct (filter (fun p : nat * field => backtrace_candidate sh (snd p)) it) as [|x [|y t]]; reflexivity.
+Qed.
+
+(* the source parse alone can only fail on a documented ambiguity *)
+Lemma source_parse_err : forall sh l,
+  parse_field_impl (valid_source sh (length l)) f_source (enumerate l) = Err ->
+  documented_source_among sh (enumerate l) = Ambiguous.
+Proof.
+  intros sh l. rewrite parse_field_impl_source_cases.
+  destruct (filter (fun p : nat * field => marked_source (snd p)) (enumerate l)) as [|x [|y t]] eqn:E;
+    [|discriminate|intros _; exact (spec_marked_many _ _ _ _ _ E)].
+  destruct sh.
+  - change (fun p : nat * field => match f_source (snd p) with
+                                   | None => valid_source Named (length l) (snd p)
+                                   | _ => false end)
+      with (fun p : nat * field => match f_source (snd p) with
+                                   | None => valid_source Named 0 (snd p)
+                                   | _ => false end).
+    rewrite (named_pred_eq _ E). unfold documented_source_among. rewrite E.
+    destruct (filter (fun p : nat * field => name_is id_source (snd p) && negb (opted_out (snd p)))
+                     (enumerate l)) as [|x [|y t]]; cbn; try discriminate. reflexivity.
+  - destruct l as [|a [|b t]].
+    + cbn. discriminate.
+    + clear E. split_field a; vm_compute; discriminate.
+    + rewrite filter_none; [cbn; discriminate|].
+      intros p _. cbn. destruct (f_source (snd p)); reflexivity.
+Qed.
+
+Lemma infer_source_field_not_err : forall n l s b, infer_source_field n l s b <> Err.
+Proof.
+  intros n l s b. unfold infer_source_field. destruct (negb (n =? 2)); [discriminate|].
+  destruct s; [discriminate|]. destruct b as [b|]; [|discriminate].
+  destruct (nth_error l ((b + 1) mod 2)) as [f|]; [|discriminate].
+  destruct (f_source f) as [[|]|]; discriminate.
+Qed.
+
+(* the selection as a whole: (source, backtrace) are the documented ones; it fails exactly on a
+   documented ambiguity of either *)
+Lemma select_full_sim : forall sh l,
+  match select_source_on (length l) (length l) sh l with
+  | Ok sb => documented_source_among sh (enumerate l) = Sel (fst sb)
+             /\ documented_backtrace_among sh (enumerate l) = Sel (snd sb)
+  | Err => documented_source_among sh (enumerate l) = Ambiguous
+           \/ documented_backtrace_among sh (enumerate l) = Ambiguous
+  | Panic => False
+  end.
+Proof.
+  intros sh l. pose proof (select_sim sh l) as AG. pose proof (source_parse_err sh l) as SE.
+  pose proof (backtrace_parse_sim sh (enumerate l)) as BS.
+  unfold select_source_on, parse_fields_impl_on in *.
+  destruct (parse_field_impl (valid_source sh (length l)) f_source (enumerate l)) as [src| |] eqn:S1;
+    cbn [res_bind] in *.
+  - destruct (parse_field_impl (valid_backtrace sh) f_backtrace (enumerate l)) as [bt| |] eqn:B1;
+      cbn [res_bind] in *.
+    + destruct sh; cbn [fst snd] in *.
+      * split; assumption.
+      * destruct (option_map fst src) as [s0|]; cbn [res_bind fst snd] in *.
+        -- split; assumption.
+        -- destruct (infer_source_field (length l) l None (option_map fst bt)) as [s'| |] eqn:I;
+             cbn [res_bind fst snd] in *.
+           ++ split; assumption.
+           ++ exfalso. exact (infer_source_field_not_err _ _ _ _ I).
+           ++ exact AG.
+    + right. exact BS.
+    + exact BS.
+  - left. apply SE. reflexivity.
+  - exact AG.
+Qed.
+
+Lemma doc_map_ambiguous : forall (g : nat -> nat) d, doc_map g d = Ambiguous <-> d = Ambiguous.
+Proof. intros g [o|]; cbn; split; intros H; try discriminate; reflexivity. Qed.
+
+Lemma parse_fields_err_iff : forall sh fs,
+  parse_fields sh fs = Err <->
+  select_source_on (length (enabled_fields fs)) (length (enabled_fields fs)) sh (enabled_fields fs) = Err.
+Proof.
+  intros sh fs. unfold parse_fields, parse_fields_on.
+  destruct (select_source_on (length (enabled_fields fs)) (length (enabled_fields fs)) sh
+                             (enabled_fields fs)) as [[s b]| |] eqn:S; cbn [res_bind fst snd].
+  - split; [|discriminate]. destruct s as [s|]; [|discriminate].
+    destruct (nth_error (combine (enabled_fields_indexes fs) (enabled_fields fs)) s) as [jf|];
+      cbn; discriminate.
+  - tauto.
+  - split; discriminate.
+Qed.
+
+(* the derive is rejected exactly on a documented ambiguity (of the source or of the backtrace) *)
+Lemma rejected_iff : forall k sh fs,
+  expand k sh fs = Err <->
+  documented_source sh fs = Ambiguous \/ documented_backtrace sh fs = Ambiguous.
+Proof.
+  intros k sh fs. rewrite documented_via_enabled, documented_backtrace_via_enabled.
+  rewrite !doc_map_ambiguous.
+  pose proof (select_full_sim sh (enabled_fields fs)) as F.
+  split.
+  - intros H. destruct (parse_fields sh fs) as [p| |] eqn:P.
+    + exfalso. (* parse ok: rendering never errs *)
+      unfold expand in H. rewrite P in H. cbn [res_bind] in H.
+      destruct k; cbn in H.
+      * unfold render_source_as_struct in H. destruct (p_source p) as [s|].
+        -- destruct (nth_error (members fs) s); cbn [res_bind] in H; try discriminate.
+           unfold render_provide_as_struct, member_at in H.
+           destruct (p_backtrace p) as [b|]; [|discriminate].
+           destruct (nth_error (members fs) s); cbn [res_bind] in H; try discriminate.
+           destruct (Nat.eqb s b); cbn [res_bind] in H; try discriminate.
+           destruct (nth_error (members fs) b); cbn [res_bind] in H; discriminate.
+        -- cbn [res_bind] in H. unfold render_provide_as_struct, member_at in H.
+           destruct (p_backtrace p) as [b|]; [|discriminate]. cbn [res_bind] in H.
+           destruct (nth_error (members fs) b); cbn [res_bind] in H; discriminate.
+      * unfold render_source_as_enum_variant_match_arm in H. destruct (p_source p) as [s|].
+        -- destruct (nth_error (enabled_fields_indexes fs) s) eqn:Ms; cbn [res_bind] in H; try discriminate.
+           unfold render_provide_as_enum_variant_match_arm, field_index_at in H.
+           destruct (p_backtrace p) as [b|]; [|discriminate].
+           destruct (Nat.eqb s b); rewrite Ms in H; cbn [res_bind] in H; try discriminate.
+           destruct (nth_error (enabled_fields_indexes fs) b); cbn [res_bind] in H; discriminate.
+        -- cbn [res_bind] in H. unfold render_provide_as_enum_variant_match_arm, field_index_at in H.
+           destruct (p_backtrace p) as [b|]; [|discriminate].
+           destruct (nth_error (enabled_fields_indexes fs) b); cbn [res_bind] in H; discriminate.
+    + apply parse_fields_err_iff in P. rewrite P in F. exact F.
+    + exfalso. apply (no_panic k sh fs). unfold expand. rewrite P. reflexivity.
+  - intros H.
+    assert (S : select_source_on (length (enabled_fields fs)) (length (enabled_fields fs)) sh
+                                 (enabled_fields fs) = Err).
+    { destruct (select_source_on (length (enabled_fields fs)) (length (enabled_fields fs)) sh
+                                 (enabled_fields fs)) as [[s b]| |]; [|reflexivity|destruct F].
+      destruct F as [F1 F2]. destruct H as [H|H]; congruence. }
+    apply parse_fields_err_iff in S. unfold expand. rewrite S. reflexivity.
+Qed.
+
+Lemma accepted_iff : forall k sh fs,
+  (exists x, expand k sh fs = Ok x) <->
+  documented_source sh fs <> Ambiguous /\ documented_backtrace sh fs <> Ambiguous.
+Proof.
+  intros k sh fs. pose proof (rejected_iff k sh fs) as R. pose proof (no_panic k sh fs) as NP.
+  destruct (expand k sh fs) as [x| |] eqn:E.
+  - split; [|eauto]. intros _. split; intros A; [assert (X : @Ok expansion x = Err) by (apply R; left; exact A)
+                                                  |assert (X : @Ok expansion x = Err) by (apply R; right; exact A)];
+      discriminate.
+  - split.
+    + intros [x X]. discriminate.
+    + intros [A B]. destruct (proj1 R eq_refl); contradiction.
+  - contradiction.
+Qed.
+
+Lemma backtrace_selection : forall k sh fs x,
+  expand k sh fs = Ok x ->
+  Sel (option_map (to_all fs) (x_bsel x)) = documented_backtrace sh fs.
+Proof.
+  intros k sh fs x H. destruct (expand_inv _ _ _ _ H) as [p [code [prov [P [RS [RP E]]]]]]. subst x.
+  destruct (parse_fields_select _ _ _ P) as [S _].
+  pose proof (select_full_sim sh (enabled_fields fs)) as F. rewrite S in F. destruct F as [_ F].
+  cbn in F. rewrite documented_backtrace_via_enabled, F. reflexivity.
+Qed.
+
+Lemma considered_filter_length : forall (P : field -> bool) fs i,
+  length (filter (fun p : nat * field => P (snd p))
+            (filter (fun p : nat * field => negb (f_ignore (snd p))) (combine (seq i (length fs)) fs)))
+  = length (filter (fun f => negb (f_ignore f) && P f) fs).
+Proof.
+  intros P. induction fs as [|f fs IH]; intros i; cbn; [reflexivity|].
+  destruct (f_ignore f); cbn; [apply IH|]. destruct (P f); cbn; rewrite IH; reflexivity.
+Qed.
+
+(* at most one non-ignored field carries `#[error(source)]` whenever the derive is accepted *)
+Lemma marked_source_unique : forall k sh fs x,
+  expand k sh fs = Ok x ->
+  length (filter (fun f => negb (f_ignore f) && marked_source f) fs) <= 1.
+Proof.
+  intros k sh fs x H.
+  assert (A : documented_source sh fs <> Ambiguous).
+  { apply (proj1 (accepted_iff k sh fs)). eauto. }
+  unfold documented_source, documented_source_among in A.
+  rewrite <- (considered_filter_length marked_source fs 0).
+  fold (indexed fs). fold (considered fs).
+  destruct (filter (fun p : nat * field => marked_source (snd p)) (considered fs)) as [|a [|b t]];
+    cbn; try lia. exfalso. apply A. reflexivity.
+Qed.
+
+(* ------------------------------------------------------------------ provide() *)
+
+Lemma enabled_index_inj : forall fs s b j,
+  nth_error (enabled_fields_indexes fs) s = Some j ->
+  nth_error (enabled_fields_indexes fs) b = Some j -> s = b.
+Proof.
+  intros fs s b j Hs Hb.
+  destruct (enabled_index_count fs 0 s j Hs) as [E1 _].
+  destruct (enabled_index_count fs 0 b j Hb) as [E2 _]. lia.
+Qed.
+
+Lemma position_some : forall idxs i k, position i idxs = Some k -> nth_error idxs k = Some i.
+Proof.
+  induction idxs as [|x r IH]; intros i k H; [discriminate|].
+  cbn in H. destruct (Nat.eqb_spec i x) as [->|Ne].
+  - inversion H; subst. reflexivity.
+  - destruct (position i r) as [k'|] eqn:P; [|discriminate]. cbn in H. inversion H; subst.
+    cbn. apply IH. exact P.
+Qed.
+
+Lemma position_nodup : forall idxs k j,
+  NoDup idxs -> nth_error idxs k = Some j -> position j idxs = Some k.
+Proof.
+  induction idxs as [|x r IH]; intros k j ND H; [destruct k; discriminate|].
+  inversion ND as [|? ? Nin ND']; subst. destruct k as [|k]; cbn in H |- *.
+  - inversion H; subst. rewrite Nat.eqb_refl. reflexivity.
+  - destruct (Nat.eqb_spec j x) as [->|Ne].
+    + exfalso. apply Nin. eapply nth_error_In. exact H.
+    + rewrite (IH _ _ ND' H). reflexivity.
+Qed.
+
+Lemma binding_position_of_matcher_from : forall idxs k j,
+  NoDup idxs -> nth_error idxs k = Some j ->
+  forall n a, a <= j -> j < a + n ->
+  binding_position_of k (map (fun i => position i idxs) (seq a n)) = Some (j - a).
+Proof.
+  intros idxs k j ND Hk. induction n as [|n IH]; intros a L U; [lia|].
+  cbn [seq map binding_position_of]. destruct (Nat.eq_dec a j) as [->|Ne].
+  - rewrite (position_nodup _ _ _ ND Hk). rewrite Nat.eqb_refl. rewrite Nat.sub_diag. reflexivity.
+  - assert (T : match position a idxs with Some k' => k' =? k | None => false end = false).
+    { destruct (position a idxs) as [k'|] eqn:P; [|reflexivity].
+      destruct (Nat.eqb_spec k' k) as [->|]; [|reflexivity].
+      apply position_some in P. congruence. }
+    rewrite T. rewrite IH by lia. cbn. f_equal. lia.
+Qed.
+
+Lemma binding_position_of_matcher : forall idxs k j n,
+  NoDup idxs -> nth_error idxs k = Some j -> j < n ->
+  binding_position_of k (matcher n idxs) = Some j.
+Proof.
+  intros idxs k j n ND Hk L. unfold matcher.
+  rewrite (binding_position_of_matcher_from idxs k j ND Hk n 0) by lia. f_equal. lia.
+Qed.
+
+(* what the rendered provide() offers, in the all-fields space *)
+Definition provide_of (fs : list field) (s b : option nat) : option nat * option nat :=
+  match b with
+  | None => (None, None)
+  | Some b0 => (if opt_nat_eqb s (Some b0) then None else Some (to_all fs b0), option_map (to_all fs) s)
+  end.
+
+Lemma render_provide_returns : forall k fs s b prov,
+  render_provide k fs s b = Ok prov -> provide_returns prov = provide_of fs s b.
+Proof.
+  intros k fs s [b|] prov H; [|destruct k; cbn in H; inversion H; reflexivity].
+  unfold provide_of.
+  assert (TA : forall i j, nth_error (enabled_fields_indexes fs) i = Some j -> to_all fs i = j).
+  { intros i j M. unfold to_all. apply nth_error_nth. exact M. }
+  destruct k; cbn in H; unfold member_at, field_index_at, members in H.
+  - (* struct *)
+    destruct s as [s|].
+    + destruct (nth_error (enabled_fields_indexes fs) s) as [js|] eqn:Ms; cbn [res_bind] in H; [|discriminate].
+      cbn [opt_nat_eqb]. destruct (Nat.eqb s b) eqn:E; cbn [res_bind] in H.
+      * inversion H; subst. cbn. rewrite (TA _ _ Ms). reflexivity.
+      * destruct (nth_error (enabled_fields_indexes fs) b) as [jb|] eqn:Mb; cbn [res_bind] in H; [|discriminate].
+        inversion H; subst. cbn. rewrite (TA _ _ Ms), (TA _ _ Mb). reflexivity.
+    + destruct (nth_error (enabled_fields_indexes fs) b) as [jb|] eqn:Mb; cbn [res_bind] in H; [|discriminate].
+      inversion H; subst. cbn. rewrite (TA _ _ Mb). reflexivity.
+  - (* variant *)
+    destruct s as [s|].
+    + cbn [opt_nat_eqb]. destruct (Nat.eqb_spec s b) as [->|Ne].
+      * destruct (nth_error (enabled_fields_indexes fs) b) as [jb|] eqn:Mb; cbn [res_bind] in H; [|discriminate].
+        inversion H; subst. cbn [provide_returns]. unfold binder_field. cbn [binder_index binder_eqb option_map].
+        rewrite (binding_position_of_matcher [jb] 0 jb (length fs)).
+        -- cbn. rewrite (TA _ _ Mb). reflexivity.
+        -- constructor; [intros []|constructor].
+        -- reflexivity.
+        -- apply (enabled_index_lt fs b jb Mb).
+      * destruct (nth_error (enabled_fields_indexes fs) s) as [js|] eqn:Ms; cbn [res_bind] in H; [|discriminate].
+        destruct (nth_error (enabled_fields_indexes fs) b) as [jb|] eqn:Mb; cbn [res_bind] in H; [|discriminate].
+        inversion H; subst. cbn [provide_returns]. unfold binder_field. cbn [binder_index binder_eqb option_map].
+        assert (ND : NoDup [js; jb]).
+        { constructor; [|constructor; [intros []|constructor]].
+          intros [E|[]]. subst. apply Ne. exact (enabled_index_inj fs s b js Ms Mb). }
+        rewrite (binding_position_of_matcher [js; jb] 1 jb (length fs) ND eq_refl (enabled_index_lt fs b jb Mb)).
+        rewrite (binding_position_of_matcher [js; jb] 0 js (length fs) ND eq_refl (enabled_index_lt fs s js Ms)).
+        cbn. rewrite (TA _ _ Ms), (TA _ _ Mb). reflexivity.
+    + destruct (nth_error (enabled_fields_indexes fs) b) as [jb|] eqn:Mb; cbn [res_bind] in H; [|discriminate].
+      inversion H; subst. cbn [provide_returns]. unfold binder_field. cbn [binder_index binder_eqb option_map].
+      rewrite (binding_position_of_matcher [jb] 0 jb (length fs)).
+      * cbn. rewrite (TA _ _ Mb). reflexivity.
+      * constructor; [intros []|constructor].
+      * reflexivity.
+      * apply (enabled_index_lt fs b jb Mb).
+Qed.
+
+Lemma to_all_inj : forall fs s b,
+  s < length (enabled_fields fs) -> b < length (enabled_fields fs) ->
+  to_all fs s = to_all fs b -> s = b.
+Proof.
+  intros fs s b Ls Lb E.
+  destruct (index_at_ok fs s Ls) as [js Ms]. destruct (index_at_ok fs b Lb) as [jb Mb].
+  unfold to_all in E. rewrite (nth_error_nth _ _ 0 Ms), (nth_error_nth _ _ 0 Mb) in E. subst.
+  exact (enabled_index_inj fs s b jb Ms Mb).
+Qed.
+
+Lemma provide_selection : forall k sh fs x,
+  expand k sh fs = Ok x -> Sel (provided x) = documented_provide sh fs.
+Proof.
+  intros k sh fs x H. destruct (expand_inv _ _ _ _ H) as [p [code [prov [P [RS [RP E]]]]]]. subst x.
+  destruct (parse_fields_select _ _ _ P) as [S _].
+  pose proof (select_full_sim sh (enabled_fields fs)) as F. rewrite S in F. destruct F as [F1 F2].
+  cbn [fst snd] in F1, F2.
+  unfold documented_provide. rewrite documented_via_enabled, documented_backtrace_via_enabled, F1, F2.
+  cbn [doc_map]. unfold provided. cbn [x_provide]. rewrite (render_provide_returns _ _ _ _ _ RP).
+  unfold provide_of. destruct (p_backtrace p) as [b|] eqn:Pb; cbn [option_map]; [|reflexivity].
+  assert (Lb : b < length (enabled_fields fs)).
+  { exact (select_backtrace_in_range _ _ _ _ _ _ S). }
+  destruct (p_source p) as [s|] eqn:Ps; cbn [option_map opt_nat_eqb]; [|reflexivity].
+  assert (Ls : s < length (enabled_fields fs)).
+  { exact (select_in_range _ _ _ _ _ _ S). }
+  destruct (Nat.eqb_spec s b) as [->|Ne].
+  - rewrite Nat.eqb_refl. reflexivity.
+  - change (nth s (enabled_fields_indexes fs) 0) with (to_all fs s).
+    destruct (Nat.eqb_spec (to_all fs s) (to_all fs b)) as [E|_]; [|reflexivity].
+    exfalso. apply Ne. exact (to_all_inj fs s b Ls Lb E).
+Qed.
+
+(* ---- whole enums: the provide() match ---- *)
+
+Lemma arms_ge_p : forall vs i arms,
+  render_enum_provide_arms i vs = Ok arms -> forall j c, In (j, c) arms -> i <= j.
+Proof.
+  induction vs as [|v vs IH]; intros i arms H j c Hin.
+  - cbn in H. inversion H; subst. destruct Hin.
+  - cbn [render_enum_provide_arms] in H. destruct (v_ignore v).
+    + specialize (IH _ _ H _ _ Hin). lia.
+    + destruct (expand Variant (v_shape v) (v_fields v)) as [x| |]; cbn [res_bind] in H; try discriminate.
+      destruct (render_enum_provide_arms (S i) vs) as [arms'| |] eqn:R; cbn [res_bind] in H; try discriminate.
+      inversion H; subst. clear H.
+      assert (G : In (j, c) arms' -> i <= j) by (intros G; specialize (IH _ _ R _ _ G); lia).
+      destruct (x_provide x); [exact (G Hin)| |]; (destruct Hin as [E|E]; [inversion E; lia|exact (G E)]).
+Qed.
+
+Lemma enum_lookup_none_p : forall arms k,
+  (forall j c, In (j, c) arms -> j <> k) -> enum_provide_returns arms k = (None, None).
+Proof.
+  induction arms as [|[i c] arms IH]; intros k H; [reflexivity|].
+  cbn. destruct (Nat.eqb_spec i k) as [->|Ne].
+  - exfalso. apply (H k c); [left; reflexivity|reflexivity].
+  - apply IH. intros j c' Hin. apply (H j c'). right. exact Hin.
+Qed.
+
+Lemma enum_variant_from_p : forall vs i arms k v,
+  render_enum_provide_arms i vs = Ok arms -> nth_error vs k = Some v ->
+  (v_ignore v = true -> enum_provide_returns arms (i + k) = (None, None)) /\
+  (v_ignore v = false ->
+   exists x, expand Variant (v_shape v) (v_fields v) = Ok x
+             /\ enum_provide_returns arms (i + k) = provided x).
+Proof.
+  induction vs as [|w vs IH]; intros i arms k v H N; [destruct k; discriminate|].
+  cbn [render_enum_provide_arms] in H. destruct k as [|k].
+  - cbn in N. inversion N; subst w. clear N. rewrite Nat.add_0_r.
+    destruct (v_ignore v) eqn:Ig.
+    + split; [|discriminate]. intros _. apply enum_lookup_none_p. intros j c Hin.
+      pose proof (arms_ge_p _ _ _ H _ _ Hin). lia.
+    + split; [discriminate|]. intros _.
+      destruct (expand Variant (v_shape v) (v_fields v)) as [x| |]; cbn [res_bind] in H; try discriminate.
+      destruct (render_enum_provide_arms (S i) vs) as [arms'| |] eqn:R; cbn [res_bind] in H; try discriminate.
+      exists x. split; [reflexivity|]. inversion H; subst. clear H.
+      assert (G : enum_provide_returns arms' i = (None, None)).
+      { apply enum_lookup_none_p. intros j c Hin. pose proof (arms_ge_p _ _ _ R _ _ Hin). lia. }
+      unfold provided. destruct (x_provide x); cbn; rewrite ?Nat.eqb_refl; try reflexivity.
+      exact G.
+  - cbn [nth_error] in N. replace (i + S k) with (S i + k) by lia.
+    assert (Skip : forall arms' c, enum_provide_returns ((i, c) :: arms') (S i + k)
+                                   = enum_provide_returns arms' (S i + k)).
+    { intros arms' c. cbn. destruct (Nat.eqb_spec i (S (i + k))); [lia|reflexivity]. }
+    destruct (v_ignore w).
+    + exact (IH _ _ _ _ H N).
+    + destruct (expand Variant (v_shape w) (v_fields w)) as [x| |]; cbn [res_bind] in H; try discriminate.
+      destruct (render_enum_provide_arms (S i) vs) as [arms'| |] eqn:R; cbn [res_bind] in H; try discriminate.
+      inversion H; subst. clear H. specialize (IH _ _ _ _ R N).
+      destruct (x_provide x); rewrite ?Skip; exact IH.
+Qed.
+
+Lemma arms_full_p : forall vs i arms,
+  render_enum_provide_arms i vs = Ok arms ->
+  length arms <= length vs /\ (length arms = length vs -> map fst arms = seq i (length vs)).
+Proof.
+  induction vs as [|v vs IH]; intros i arms H.
+  - cbn in H. inversion H; subst. cbn. split; [lia|reflexivity].
+  - cbn [render_enum_provide_arms] in H. cbn [length].
+    assert (Skip : forall a, render_enum_provide_arms (S i) vs = Ok a ->
+                   length a <= S (length vs) /\ (length a = S (length vs) -> map fst a = seq i (S (length vs)))).
+    { intros a Ha. destruct (IH _ _ Ha) as [L _]. split; [lia|intros E; lia]. }
+    destruct (v_ignore v); [exact (Skip _ H)|].
+    destruct (expand Variant (v_shape v) (v_fields v)) as [x| |]; cbn [res_bind] in H; try discriminate.
+    destruct (render_enum_provide_arms (S i) vs) as [arms'| |] eqn:R; cbn [res_bind] in H; try discriminate.
+    inversion H; subst. clear H. destruct (IH _ _ R) as [L F].
+    destruct (x_provide x); [exact (Skip _ eq_refl)| |];
+      (cbn [length map fst seq]; split; [lia|]; intros E; f_equal; apply F; lia).
+Qed.
+
+Lemma covers_in_p : forall arms k, provide_covers arms k = true <-> In k (map fst arms).
+Proof.
+  intros arms k. unfold provide_covers. rewrite existsb_exists. split.
+  - intros [a [Ha E]]. apply Nat.eqb_eq in E. subst. apply in_map. exact Ha.
+  - intros H. apply in_map_iff in H. destruct H as [a [E Ha]]. exists a. split; [exact Ha|].
+    apply Nat.eqb_eq. exact E.
+Qed.
+
+Lemma enum_provide_exhaustive : forall vs f,
+  render_enum_provide vs = Ok f -> provide_match_exhaustive f (length vs) = true.
+Proof.
+  intros vs f H. unfold render_enum_provide in H.
+  destruct (render_enum_provide_arms 0 vs) as [arms| |] eqn:R; cbn [res_bind] in H; try discriminate.
+  destruct (arms_full_p _ _ _ R) as [L F].
+  destruct arms as [|a arms]; inversion H; subst; [reflexivity|]. clear H.
+  unfold provide_match_exhaustive. cbn [length] in L, F |- *.
+  destruct (Nat.ltb_spec (S (length arms)) (length vs)) as [Lt|Ge]; [reflexivity|].
+  cbn [orb]. apply forallb_forall. intros k Hk. apply covers_in_p. rewrite F by lia. exact Hk.
+Qed.
+
+Lemma enum_provide_documented : forall vs f k v,
+  render_enum_provide vs = Ok f -> nth_error vs k = Some v ->
+  (v_ignore v = true -> enum_provide_fn_returns f k = (None, None)) /\
+  (v_ignore v = false ->
+   Sel (enum_provide_fn_returns f k) = documented_provide (v_shape v) (v_fields v)).
+Proof.
+  intros vs f k v H N. unfold render_enum_provide in H.
+  destruct (render_enum_provide_arms 0 vs) as [arms| |] eqn:R; cbn [res_bind] in H; try discriminate.
+  destruct (enum_variant_from_p vs 0 arms k v R N) as [A B]. cbn [Nat.add] in A, B.
+  assert (D : (v_ignore v = true -> enum_provide_returns arms k = (None, None)) /\
+              (v_ignore v = false ->
+               Sel (enum_provide_returns arms k) = documented_provide (v_shape v) (v_fields v))).
+  { split; [exact A|]. intros Ig. destruct (B Ig) as [x [Hx E]]. rewrite E.
+    exact (provide_selection _ _ _ _ Hx). }
+  destruct arms as [|a arms]; inversion H; subst; exact D.
+Qed.
+
+(* ------------------------------------------------------------------ `ignore` and the outcome *)
+
+Lemma ignore_inert_outcome : forall kd sh fs k f,
+  f_ignore f = true -> k <= length fs ->
+  ((exists x, expand kd sh fs = Ok x) <-> (exists x', expand kd sh (insert_at k f fs) = Ok x'))
+  /\ (expand kd sh fs = Err <-> expand kd sh (insert_at k f fs) = Err).
+Proof.
+  intros kd sh fs k f Hf Hk.
+  rewrite !accepted_iff, !rejected_iff.
+  rewrite (ignore_inert sh fs k f Hf Hk), (ignore_inert_backtrace sh fs k f Hf Hk).
+  rewrite !doc_map_ambiguous. split; tauto.
+Qed.
+
+(* ------------------------------------------------------------------ types: which fields get bounded *)
+
+(* induction over the nested mutual type of types *)
+Section TyInduction.
+  Variable Pt : ty -> Prop.
+  Variable Ps : seg -> Prop.
+  Variable Pa : pargs -> Prop.
+  Variable Pg : garg -> Prop.
+  Variable Pb : bound -> Prop.
+  Definition OptP (o : option ty) : Prop := match o with Some t => Pt t | None => True end.
+  Hypothesis HPath : forall q segs, OptP q -> Forall Ps segs -> Pt (TyPath q segs).
+  Hypothesis HRef : forall e, Pt e -> Pt (TyRef e).
+  Hypothesis HWrap : forall e, Pt e -> Pt (TyWrap e).
+  Hypothesis HTuple : forall es, Forall Pt es -> Pt (TyTuple es).
+  Hypothesis HBareFn : forall ins out, Forall Pt ins -> OptP out -> Pt (TyBareFn ins out).
+  Hypothesis HTraitObject : forall bs, Forall Pb bs -> Pt (TyTraitObject bs).
+  Hypothesis HOther : Pt TyOther.
+  Hypothesis HSeg : forall n a, Pa a -> Ps (Seg n a).
+  Hypothesis HPNone : Pa PNone.
+  Hypothesis HPAngle : forall l, Forall Pg l -> Pa (PAngle l).
+  Hypothesis HPParen : forall ins out, Forall Pt ins -> OptP out -> Pa (PParen ins out).
+  Hypothesis HGType : forall t, Pt t -> Pg (GType t).
+  Hypothesis HGAssoc : forall t, Pt t -> Pg (GAssocType t).
+  Hypothesis HGConstraint : forall i, Pg (GConstraint i).
+  Hypothesis HGOther : Pg GOther.
+  Hypothesis HBTrait : forall path, Forall Ps path -> Pb (BTrait path).
+  Hypothesis HBLifetime : Pb BLifetime.
+
+  Fixpoint ty_induction (t : ty) {struct t} : Pt t :=
+    match t with
+    | TyPath q segs =>
+        HPath q segs
+          (match q return OptP q with Some qt => ty_induction qt | None => I end)
+          ((fix go (l : list seg) : Forall Ps l :=
+              match l with [] => Forall_nil _ | x :: r => Forall_cons x (seg_induction x) (go r) end) segs)
+    | TyRef e => HRef e (ty_induction e)
+    | TyWrap e => HWrap e (ty_induction e)
+    | TyTuple es =>
+        HTuple es ((fix go (l : list ty) : Forall Pt l :=
+                      match l with [] => Forall_nil _ | x :: r => Forall_cons x (ty_induction x) (go r) end) es)
+    | TyBareFn ins out =>
+        HBareFn ins out
+          ((fix go (l : list ty) : Forall Pt l :=
+              match l with [] => Forall_nil _ | x :: r => Forall_cons x (ty_induction x) (go r) end) ins)
+          (match out return OptP out with Some o => ty_induction o | None => I end)
+    | TyTraitObject bs =>
+        HTraitObject bs ((fix go (l : list bound) : Forall Pb l :=
+                            match l with [] => Forall_nil _ | x :: r => Forall_cons x (bound_induction x) (go r) end) bs)
+    | TyOther => HOther
+    end
+  with seg_induction (s : seg) {struct s} : Ps s :=
+    match s with Seg n a => HSeg n a (pargs_induction a) end
+  with pargs_induction (a : pargs) {struct a} : Pa a :=
+    match a with
+    | PNone => HPNone
+    | PAngle l =>
+        HPAngle l ((fix go (l : list garg) : Forall Pg l :=
+                      match l with [] => Forall_nil _ | x :: r => Forall_cons x (garg_induction x) (go r) end) l)
+    | PParen ins out =>
+        HPParen ins out
+          ((fix go (l : list ty) : Forall Pt l :=
+              match l with [] => Forall_nil _ | x :: r => Forall_cons x (ty_induction x) (go r) end) ins)
+          (match out return OptP out with Some o => ty_induction o | None => I end)
+    end
+  with garg_induction (g : garg) {struct g} : Pg g :=
+    match g with
+    | GType t => HGType t (ty_induction t)
+    | GAssocType t => HGAssoc t (ty_induction t)
+    | GConstraint i => HGConstraint i
+    | GOther => HGOther
+    end
+  with bound_induction (b : bound) {struct b} : Pb b :=
+    match b with
+    | BTrait path =>
+        HBTrait path ((fix go (l : list seg) : Forall Ps l :=
+                         match l with [] => Forall_nil _ | x :: r => Forall_cons x (seg_induction x) (go r) end) path)
+    | BLifetime => HBLifetime
+    end.
+End TyInduction.
+
+Lemma existsb_flat_map_spec : forall A (f : A -> bool) (g : A -> list ident) (P : ident -> bool) l,
+  Forall (fun x => f x = existsb P (g x)) l -> existsb f l = existsb P (flat_map g l).
+Proof.
+  intros A f g P l H. induction H as [|x l Hx Hl IH]; cbn; [reflexivity|].
+  rewrite existsb_app, Hx, IH. reflexivity.
+Qed.
+
+(* the walk finds a type parameter iff one of the identifiers it looks at is a type parameter *)
+Lemma used_ty_spec : forall ps t, used_ty ps t = existsb (fun i => memb i ps) (idents_ty t).
+Proof.
+  intros ps.
+  apply (ty_induction
+           (fun t => used_ty ps t = existsb (fun i => memb i ps) (idents_ty t))
+           (fun s => used_seg ps s = existsb (fun i => memb i ps) (idents_seg s))
+           (fun a => used_pargs ps a = existsb (fun i => memb i ps) (idents_pargs a))
+           (fun g => used_garg ps g = existsb (fun i => memb i ps) (idents_garg g))
+           (fun b => used_bound ps b = existsb (fun i => memb i ps) (idents_bound b))).
+  - intros q segs Hq Hs. cbn [used_ty idents_ty]. rewrite !existsb_app.
+    rewrite (existsb_flat_map_spec _ _ _ _ _ Hs).
+    destruct q as [qt|]; cbn in Hq; [rewrite Hq|]; destruct segs as [|[n a] r]; cbn;
+      rewrite ?orb_false_r, ?orb_assoc; reflexivity.
+  - intros e He. exact He.
+  - intros e He. exact He.
+  - intros es H. cbn [used_ty idents_ty]. apply existsb_flat_map_spec. exact H.
+  - intros ins out Hi Ho. cbn [used_ty idents_ty]. rewrite existsb_app.
+    rewrite (existsb_flat_map_spec _ _ _ _ _ Hi). destruct out as [o|]; cbn in Ho; [rewrite Ho|]; reflexivity.
+  - intros bs H. cbn [used_ty idents_ty]. apply existsb_flat_map_spec. exact H.
+  - reflexivity.
+  - intros n a Ha. exact Ha.
+  - reflexivity.
+  - intros l H. cbn [used_pargs idents_pargs]. apply existsb_flat_map_spec. exact H.
+  - intros ins out Hi Ho. cbn [used_pargs idents_pargs]. rewrite existsb_app.
+    rewrite (existsb_flat_map_spec _ _ _ _ _ Hi). destruct out as [o|]; cbn in Ho; [rewrite Ho|]; reflexivity.
+  - intros t Ht. exact Ht.
+  - intros t Ht. exact Ht.
+  - intros i. cbn. rewrite orb_false_r. reflexivity.
+  - reflexivity.
+  - intros path H. cbn [used_bound idents_bound]. apply existsb_flat_map_spec. exact H.
+  - reflexivity.
+Qed.
+
+Lemma used_ty_iff : forall ps t,
+  used_ty ps t = true <-> exists i, In i ps /\ In i (idents_ty t).
+Proof.
+  intros ps t. rewrite used_ty_spec, existsb_exists. split.
+  - intros [i [Hi M]]. exists i. split; [|exact Hi]. unfold memb in M. apply existsb_exists in M.
+    destruct M as [j [Hj E]]. apply Nat.eqb_eq in E. subst. exact Hj.
+  - intros [i [Hp Hi]]. exists i. split; [exact Hi|]. unfold memb. apply existsb_exists.
+    exists i. split; [exact Hp|apply Nat.eqb_refl].
+Qed.
+
+Lemma get_if_spec : forall ps t,
+  get_if_type_parameter_used_in_type ps t
+  = if used_ty ps t then Some (strip_reference t) else None.
+Proof. reflexivity. Qed.
+
+(* references are transparent for the walk; no parameters, no bound *)
+Lemma used_ty_ref : forall ps t, used_ty ps (TyRef t) = used_ty ps t.
+Proof. reflexivity. Qed.
+Lemma used_ty_no_params : forall t, used_ty [] t = false.
+Proof.
+  intros t. rewrite used_ty_spec. induction (idents_ty t) as [|i l IH]; [reflexivity|exact IH].
+Qed.
+
+(* no source, no bound *)
+Lemma bound_only_with_source : forall k sh fs x,
+  expand k sh fs = Ok x -> returned_field x = None -> x_bound x = None.
+Proof.
+  intros k sh fs x H R. destruct (expand_inv _ _ _ _ H) as [p [code [prov [P [RS [RP E]]]]]]. subst x.
+  destruct (parse_fields_select _ _ _ P) as [S B].
+  destruct (render_source_returns _ _ _ _ RS) as [RR _].
+  unfold returned_field in R. cbn [x_code] in R. rewrite RR in R.
+  destruct (p_source p) as [s|]; [discriminate|]. exact B.
+Qed.
+
+(* concrete fields: the bound is put on the type of the returned field exactly when one of the
+   identifiers the walk looks at in that type is a type parameter of the item *)
+Lemma bound_inference : forall ps k sh cs x j c,
+  expand k sh (map (abstract_field ps) cs) = Ok x ->
+  returned_field x = Some j -> nth_error cs j = Some c ->
+  (x_bound x = Some j <-> exists i, In i ps /\ In i (idents_ty (c_ty c)))
+  /\ (x_bound x = Some j \/ x_bound x = None)
+  /\ (x_bound x = Some j ->
+      get_if_type_parameter_used_in_type ps (c_ty c)
+      = Some (strip_reference (c_ty c))).
+Proof.
+  intros ps k sh cs x j c H R N.
+  assert (Nf : nth_error (map (abstract_field ps) cs) j = Some (abstract_field ps c)).
+  { rewrite nth_error_map, N. reflexivity. }
+  pose proof (bound_on_selected _ _ _ _ _ _ H R Nf) as B. cbn [abstract_field f_ty_generic] in B.
+  rewrite <- used_ty_iff. unfold get_if_type_parameter_used_in_type.
+  destruct (used_ty ps (c_ty c)); rewrite B.
+  - split; [split; reflexivity|]. split; [left; reflexivity|]. intros _. reflexivity.
+  - split; [split; discriminate|]. split; [right; reflexivity|]. discriminate.
+Qed.
+
+Example used_ty_example :
+  (* `Vec<(u8, &'a [T; 2])>` with T := 100: bounded; `Vec<u8>`: not; `&T`: the bound goes on `T` *)
+  let t := TyPath None [Seg 10 (PAngle [GType (TyTuple [TyPath None [Seg 11 PNone];
+                                                       TyRef (TyWrap (TyPath None [Seg 100 PNone]))])])] in
+  used_ty [100] t = true
+  /\ used_ty [100] (TyPath None [Seg 10 (PAngle [GType (TyPath None [Seg 11 PNone])])]) = false
+  /\ get_if_type_parameter_used_in_type [100] (TyRef (TyPath None [Seg 100 PNone]))
+     = Some (TyPath None [Seg 100 PNone])
+  /\ is_type_path_ends_with_segment (TyPath None [Seg 7 PNone; Seg ty_Backtrace PNone]) ty_Backtrace = true
+  /\ is_type_path_ends_with_segment (TyPath None [Seg ty_Backtrace (PAngle [GOther])]) ty_Backtrace = false.
+Proof. repeat split. Qed.
+
 (* ------------------------------------------------------------------ witnesses
    `old_*` : historical regression lemmas about the code before commit 6329c3f (`expand_old`);
    `regression_witnesses` : the same layouts through the current model. *)
@@ -1185,3 +1961,47 @@ Example regression_witnesses :
   /\ (exists x, expand Struct Unnamed [w_ignored 5; w_backtrace] = Ok x /\ returned_field x = None)
   /\ (exists x, expand Struct Named [w_ignored 5; w_source_generic] = Ok x /\ x_bound x = Some 1).
 Proof. repeat split; eexists; vm_compute; split; reflexivity. Qed.
+
+(* ------------------------------------------------------------------ the new hypotheses are satisfiable *)
+
+(* struct E(Inner, Backtrace): source = field 0, backtrace = field 1, provide() offers the backtrace
+   by reference and forwards to the source *)
+Example provide_example :
+  exists x, expand Struct Unnamed [w_plain 6; w_backtrace] = Ok x
+            /\ returned_field x = Some 0 /\ provided x = (Some 1, Some 0)
+            /\ documented_provide Unnamed [w_plain 6; w_backtrace] = Sel (Some 1, Some 0).
+Proof. eexists. vm_compute. repeat split. Qed.
+
+(* V { #[error(ignore)] a, #[error(backtrace)] source: Inner }: "backtrace from source" *)
+Example provide_from_source_example :
+  let fs := [w_ignored 5; mkField (Some id_source) false false None (Some true) false] in
+  exists x, expand Variant Named fs = Ok x
+            /\ returned_field x = Some 1 /\ provided x = (None, Some 1)
+            /\ documented_provide Named fs = Sel (None, Some 1).
+Proof. eexists. vm_compute. repeat split. Qed.
+
+(* struct E(Inner, Backtrace, Backtrace): the source is determined (none), the backtrace is not *)
+Example rejected_by_backtrace_example :
+  documented_source Unnamed [w_plain 6; w_backtrace; w_backtrace] = Sel None
+  /\ documented_backtrace Unnamed [w_plain 6; w_backtrace; w_backtrace] = Ambiguous
+  /\ expand Struct Unnamed [w_plain 6; w_backtrace; w_backtrace] = Err.
+Proof. vm_compute. repeat split. Qed.
+
+(* enum E { A(Inner, Backtrace), #[error(ignore)] B(Inner) }: both matches need their wildcard *)
+Example enum_example :
+  let vs := [mkVariant false Unnamed [w_plain 6; w_backtrace]; mkVariant true Unnamed [w_plain 6]] in
+  (exists arms, render_enum_source vs = Ok (MatchSelf arms true)
+                /\ enum_source_returns arms 0 = Some 0 /\ enum_source_returns arms 1 = None)
+  /\ (exists arms, render_enum_provide vs = Ok (MatchSelfProvide arms true)
+                   /\ enum_provide_returns arms 0 = (Some 1, Some 0)
+                   /\ enum_provide_returns arms 1 = (None, None)).
+Proof. split; eexists; vm_compute; repeat split. Qed.
+
+(* struct E<T>(#[error(ignore)] u8, Vec<(u8, &[T; 2])>): the bound is on field 1 *)
+Example bound_inference_example :
+  let t := TyPath None [Seg 10 (PAngle [GType (TyTuple [TyPath None [Seg 11 PNone];
+                                                       TyRef (TyWrap (TyPath None [Seg 100 PNone]))])])] in
+  let cs := [mkCField None (TyPath None [Seg 11 PNone]) None None true; mkCField None t None None false] in
+  exists x, expand Struct Unnamed (map (abstract_field [100]) cs) = Ok x
+            /\ returned_field x = Some 1 /\ x_bound x = Some 1.
+Proof. eexists. vm_compute. repeat split. Qed.
